@@ -10,7 +10,7 @@ func init() { Register(Area{Name: "DListCode", Gen: genDListCode}) }
 var dlistFuncs = []string{"DNode.Next", "DNode.Prev", "DList.Init", "DList.Len", "DList.Front", "DList.Back", "DList.lazyInit",
 	"DList.insert", "DList.insertValue", "DList.remove", "DList.move", "DList.Remove", "DList.PushFront", "DList.PushBack",
 	"DList.InsertBefore", "DList.InsertAfter", "DList.PushFrontNode", "DList.PushBackNode", "DList.InsertNodeBefore",
-	"DList.InsertNodeAfter", "DList.MoveToFront"}
+	"DList.InsertNodeAfter", "DList.MoveToFront", "DList.MoveToBack", "DList.MoveBefore", "DList.MoveAfter"}
 
 var dlistShape = map[string]Shape13{
 	"DNode.Next": {}, "DNode.Prev": {}, "DList.Init": {}, "DList.Len": {}, "DList.Front": {}, "DList.Back": {},
@@ -25,6 +25,9 @@ var dlistShape = map[string]Shape13{
 	"DList.InsertNodeBefore": {Calls: []string{"DList.insert"}},
 	"DList.InsertNodeAfter":  {Calls: []string{"DList.insert"}},
 	"DList.MoveToFront":      {Calls: []string{"DList.move"}},
+	"DList.MoveToBack":       {Calls: []string{"DList.move"}},
+	"DList.MoveBefore":       {Calls: []string{"DList.move"}},
+	"DList.MoveAfter":        {Calls: []string{"DList.move"}},
 }
 
 func genDListCode(repo string) (string, error) {
